@@ -36,7 +36,7 @@ func runC01(env *lib.Env, rep *lib.Report) {
 	// statements on the oldest and the newest table of a catalog whose page table has split, with timer flushes
 	// in between (a root change of an old table then touches a clean page-table leaf)
 	cfgs = append(cfgs, histCfg{Name: "real/catalog-split/c0+c7+ticks", Opt: real, Seed: "catalog-split",
-		Alpha: alphaOpt{Tables: []string{"c0", "c7"}, Inserts: []int{1, 9}, Updates: true, Deletes: true, FewDeletes: true}, Depth: d, TickChoice: true, FinalReopen: true})
+		Alpha: alphaOpt{Tables: []string{"c0", "c7"}, Inserts: []int{1, 9}, Updates: true, Deletes: true, FewDeletes: true}, Depth: d, TickChoice: true, Reselect: true, FinalReopen: true})
 	// deeper, with a two-table alphabet, from the empty database
 	cfgs = append(cfgs, histCfg{Name: "real/empty/deep", Opt: real, Seed: "empty", Alpha: twoAlpha, Depth: d + 1, FinalReopen: true})
 	rep.Bounds["depth"] = d
@@ -117,6 +117,10 @@ func runC11(env *lib.Env, rep *lib.Report) {
 	for _, seed := range []string{"t1x8", "interleaved", "t1x30", "catalog-split"} {
 		cfgs = append(cfgs, histCfg{Name: "real/" + seed, Opt: worldOpt{}, Seed: seed, Alpha: alpha, Depth: d, TickChoice: true, Reopen: true, Crash: true, Walk: true, OnlyWalk: true})
 	}
+	// the oldest and the newest table of a catalog whose page table has split, with flushes and re-selections of the
+	// database (the store closed and opened again with no recovery in between)
+	cfgs = append(cfgs, histCfg{Name: "real/catalog-split/c0+c7+reselect", Opt: worldOpt{}, Seed: "catalog-split",
+		Alpha: alphaOpt{Tables: []string{"c0", "c7"}, Inserts: []int{1, 9}, Deletes: true, FewDeletes: true}, Depth: d, TickChoice: true, Reselect: true, Walk: true, OnlyWalk: true})
 	// refused row insertions (row over the size limit) between accepted ones: the refusal must leave the leaf as it was
 	refusing := alphaOpt{Tables: []string{"t1"}, Inserts: []int{1, 9}, Updates: true, FailingInsert: true}
 	cfgs = append(cfgs, histCfg{Name: "real/t1x8/refused-inserts", Opt: worldOpt{}, Seed: "t1x8", Alpha: refusing, Depth: d, TickChoice: true, Reopen: true, Crash: true, Walk: true, OnlyWalk: true},
